@@ -217,6 +217,9 @@ def judge(pid, tier, seed, t0, builds, results, nd=()):
         for o in unw:
             if o['status'] != 'SUCCESS':
                 raise Undecided('bound-too-small', '%s: unwinding assertion %s does not hold: the stated bound is not complete' % (R['function'], o['id']))
+        for o in obs:
+            if o['status'] != 'SUCCESS' and (o['description'] or '').startswith('model limit:'):
+                raise Undecided('model-limit', '%s: %s (%s)' % (R['function'], o['description'], o['id']))
         is_bounded = bool(fs.bounded) or any(k == 'bounded' for _, k in fs.unwind)
         bad = [o for o in obs if o['status'] != 'SUCCESS']
         fails = [o for o in bad if o['status'] == 'FAILURE']
